@@ -232,6 +232,35 @@ pub fn canon_number(rng: &mut Rng, heavy: bool) -> String {
 	format!("{neg}{body}")
 }
 
+/// Numbers in rounding spots that random generation practically never hits (always recorded, also in the quick
+/// tier): exact ties between neighbouring SUBNORMAL doubles and at the subnormal/normal boundary (about 750
+/// significant digits each), their near misses, the tie between zero and the smallest subnormal, and exact
+/// ties at the top of the double range.
+pub fn hard_numbers(heavy: bool) -> Vec<String> {
+	let mut out = vec![];
+	let sub_m: &[u64] = if heavy { &[0, 1, 2, 5, 0x8_0000_0000_0001, 0xA_5A5A_5A5A_5A5B, 0xF_FFFF_FFFF_FFFF] } else { &[0, 1, 0xF_FFFF_FFFF_FFFF] };
+	for &m in sub_m {
+		let mid = midpoint_above(m, -1074);
+		out.push(mid.clone());
+		// just above / just below the tie
+		let (mant, ex) = mid.split_at(mid.find('e').unwrap_or(mid.len()));
+		let mant = if mant.contains('.') { mant.to_string() } else { format!("{mant}.0") };
+		out.push(format!("{mant}0000001{ex}"));
+		let mut t = mant.clone();
+		t.pop();
+		out.push(format!("-{t}49999999{ex}"));
+	}
+	// long spellings of subnormals that are not ties (the exact value of a subnormal plus a little)
+	if heavy {
+		out.push(format!("{}", exact_decimal(0x3_1234_5678_9ABC, -1074)));
+		// ties in the normal range at the extremes of the exponent range
+		out.push(midpoint_above(0x10_0000_0000_0001, -1074));
+	}
+	out.push(midpoint_above(0x1F_FFFF_FFFF_FFFE, 971));
+	out.push(midpoint_above(0x10_0000_0000_0000, 0));
+	out
+}
+
 pub fn random_double(rng: &mut Rng) -> f64 {
 	loop {
 		let f = f64::from_bits(rng.next() & 0x7fff_ffff_ffff_ffff);
